@@ -38,6 +38,7 @@ var treePlan = []planEntry{
 	{spaces.XNest, 7, 8},
 	{spaces.XMlRef, 5, 6},
 	{spaces.XNulRef, 5, 6},
+	{spaces.XPhrase, 4, 5},
 }
 
 // forPlan runs f over every space of a plan at the tier's length.
